@@ -4,7 +4,7 @@ from common import *
 import gcgen
 
 C08_THEOREMS = ["SodiumVerif.Gc.decRef_freed", "SodiumVerif.Gc.incRef_count"]
-C16_THEOREMS = ["SodiumVerif.Gc.reset1_trace_calls_le"]
+C16_THEOREMS = ['SodiumVerif.Gc.reset1_trace_calls_le', 'SodiumVerif.Gc.reset1_cost_le', 'SodiumVerif.Gc.reset2_cost_le', 'SodiumVerif.Gc.markGray_cost_le', 'SodiumVerif.Gc.scan_cost_le', 'SodiumVerif.Gc.scanBlack_cost_le', 'SodiumVerif.Gc.collectWhite_cost_le', 'SodiumVerif.Gc.displayGraph_cost_le', 'SodiumVerif.Gc.markRoots_trace_calls_le', 'SodiumVerif.Gc.scanRoots_trace_calls_le', "SodiumVerif.Gc.collectRoots_trace_calls_le'", 'SodiumVerif.Gc.free_no_trace', 'SodiumVerif.Gc.onePass_trace_calls_le', 'SodiumVerif.Gc.onePass_edge_calls_le', 'SodiumVerif.Gc.reset1_fuel', 'SodiumVerif.Gc.reset2_fuel', 'SodiumVerif.Gc.markGray_fuel', 'SodiumVerif.Gc.scan_fuel', 'SodiumVerif.Gc.collectWhite_fuel', 'SodiumVerif.Gc.markRoots_fuel', 'SodiumVerif.Gc.scanRoots_fuel', 'SodiumVerif.Gc.collectRoots_fuel', 'SodiumVerif.Gc.onePass_fuel', 'SodiumVerif.Gc.onePass_progress', 'SodiumVerif.Gc.collectCycles_terminates', 'SodiumVerif.Gc.collectCycles_trace_calls_le', 'SodiumVerif.Gc.collectCycles_edge_calls_le']
 
 
 def strip_truth(lines):
